@@ -207,6 +207,8 @@ func genUnsortedDoc(t *rapid.T) interface{} {
 		"o1":     map[string]interface{}{"k": 1.0, "j": []interface{}{2.0, 1.0}, "n": map[string]interface{}{"x": 1.0, "y": 2.0, "d": map[string]interface{}{"p": 1.0}}},
 		"o2":     map[string]interface{}{"k": 2.0, "l": 3.0, "n": map[string]interface{}{"x": 3.0, "d": map[string]interface{}{"q": 2.0}}},
 		// arrays that are in order already (a function that has nothing to do may hand its argument on)
+		"empty":  map[string]interface{}{},
+		"emptyl": []interface{}{},
 		"sorted": []interface{}{1.0, 2.0, 3.0, 5.0},
 		"sstrs":  []interface{}{"a", "b", "c"},
 		"one":    []interface{}{7.0},
@@ -222,6 +224,8 @@ var c06Templates = []string{
 	"sort_by(people[*], &age)", "people[*].{n: name, t: sort(tags)}", "sort_by(nested[?type(@)=='array'], &length(@))", "o1.j | sort(@) | reverse(@)",
 	"to_string(nums)", "to_string(@)", "nums[*].to_string(@)", "map(&to_string(@), nums)", "to_string(nums[1])", "[to_string(nums[2]), to_string(nums[3])]", "strs[*].to_number(@)", "map(&to_number(@), strs)", "strs[*].reverse(@)", "strs[*].length(@)",
 	"sort(nums) | to_string(@)", "to_string(people)", "{a: to_string(nums), b: nums}", "nums[*].abs(@)", "nums[*].ceil(@)", "nums[*].floor(@)", "max(nums)", "min(nums)", "sort_by(nums, &@)", "nums[?@ < `0`]", "nums[?@ >= `0`]",
+	// an empty first operand is an operand like any other (not the place to build the result in)
+	"merge(`{}`, o1)", "merge(`{}`, o1, o2)", "merge(empty, o1)", "merge(empty, o2, o1).k", "[merge(empty, o1), empty]", "merge(`{}`, @).nums", "merge(empty, empty)", "merge(o1, empty)", "[emptyl, nums][]", "[emptyl, strs][] | [0]", "sort(emptyl)", "reverse(emptyl)", "not_null(emptyl, nums)", "emptyl[*]", "merge(`{}`, {a: nums}) | a",
 	// merge overwrites shallowly: an object under a key of both operands is replaced, not merged into
 	"merge(o1, o2)", "merge(o2, o1)", "merge(@, {o1: o2})", "merge(o1, o2, o1)", "merge(`{\"n\":{\"q\":1,\"d\":{\"r\":0}}}`, o1)", "merge(`{\"n\":{\"q\":1}}`, o2, o1).n", "merge(o1, {n: o2.n})", "merge(o1, o2).n.d", "[merge(o1, o2), o1.n]", "merge(o1.n, o2.n)", "merge({a: o1.n}, {a: o2.n}).a",
 	// identity-like inner calls on arrays that are sorted already, consumed by a call that reorders; and the sort idioms
